@@ -256,6 +256,20 @@ def run(ctx) -> None:
         rets_ = [n for n in live if n.kind == "stmt" and isinstance(n.ast, ast.Return)]
         return bool(rets_) and all(isinstance(r.ast.value, ast.Constant) and r.ast.value.value is False for r in rets_)
 
+    # validation and activation agree on what a collection-valued decision is: the container types the multi-target
+    # validator accepts are exactly the ones the activation test takes apart (a tuple accepted by one and compared as a
+    # single name by the other passes validation and then activates nothing)
+    def _isinstance_types(f_, var_):
+        out_ = set()
+        for x in walk_local(f_.node):
+            if isinstance(x, ast.Call) and dotted(x.func) == "isinstance" and len(x.args) == 2 and isinstance(x.args[0], ast.Name) and x.args[0].id == var_:
+                t_ = x.args[1]
+                out_ |= {src(e) for e in (t_.elts if isinstance(t_, ast.Tuple) else [t_])}
+        return out_
+
+    coll_types = {"list", "tuple", "set", "frozenset", "Sequence", "Collection", "Iterable"}
+    tv, ta = _isinstance_types(vm, d_vm) & coll_types, _isinstance_types(act, d_act) & coll_types
+    rep.add("C03.R2", "decision-container-types-agree", tv == ta and bool(tv), vm.loc(), f"validation and activation both treat {sorted(tv)} as a collection of targets" if tv == ta and tv else f"the multi-target validator accepts {sorted(tv)} but the activation test takes apart {sorted(ta)} only: a decision of the other container type is stored as valid and then selects nothing (the selected branches never start)")
     ok = only_false(live_end) and only_false(live_none)
     rep.add("C03.R4", f"{act.qname}:END-None-activate-nothing", ok, act.loc(), "END and None decisions activate no node (decided before any membership test)" if ok else "an END or None decision can activate a node")
 
